@@ -23,6 +23,12 @@ SPEC = os.path.join(ROOT, 'spec')
 HARNESS = os.path.join(ROOT, 'harness')
 WORKROOT = os.path.join(ROOT, 'work')
 EVID = os.path.join(ROOT, 'evidence')
+# VERIF_REPO: alternative location of the repository under test (used only to evaluate seeded defects in a scratch copy);
+# the registered checks always use /repo
+REPO = os.environ.get('VERIF_REPO', '/repo')
+if REPO != '/repo':
+    HARNESS_SRC = HARNESS
+    HARNESS = os.path.join(WORKROOT, 'harness-' + hashlib.sha1(REPO.encode()).hexdigest()[:8])
 CONFORM = os.path.join(HARNESS, 'target', 'debug', 'conform')
 NCPU = os.cpu_count() or 4
 
@@ -42,6 +48,14 @@ def build_harness():
     lock = open(os.path.join(WORKROOT, '.build.lock'), 'w')
     fcntl.flock(lock, fcntl.LOCK_EX)
     try:
+        if REPO != '/repo':
+            os.makedirs(HARNESS, exist_ok=True)
+            for item in ('src', '.cargo'):
+                shutil.rmtree(os.path.join(HARNESS, item), ignore_errors=True)
+                shutil.copytree(os.path.join(HARNESS_SRC, item), os.path.join(HARNESS, item))
+            shutil.copy(os.path.join(HARNESS_SRC, 'Cargo.lock'), HARNESS)
+            toml = open(os.path.join(HARNESS_SRC, 'Cargo.toml')).read().replace('path = "/repo"', 'path = "%s"' % REPO)
+            open(os.path.join(HARNESS, 'Cargo.toml'), 'w').write(toml)
         lockfile = os.path.join(HARNESS, 'Cargo.lock')
         if not os.path.exists(lockfile):
             shutil.copy('/repo/Cargo.lock', lockfile)
@@ -132,6 +146,8 @@ def parse_trace_output(path):
                 done = int(s[5:])
             elif s.startswith('STAT '):
                 notes.append(json.loads(s[5:]))
+            elif s.startswith('INEXACT '):
+                notes.append({'inexact': 1})
     if done is None and not errors:
         errors.append('validator did not finish (no DONE line)')
     return verdicts, drifts, notes, done, errors
@@ -260,7 +276,9 @@ def run_stage(stage, workdir, seed, tier, result):
     verdicts, drifts, notes, events, errors = validate(stage.trace, stage.trace + '.cfg', tpath, workdir, tag,
                                                        shard_events=stage.shard_events)
     if errors:
-        raise ToolError('trace validation %s: %s' % (stage.trace, errors[0]))
+        # verdicts already printed are sound; remember the tool error, it decides the exit code only if nothing was found
+        result['tool_errors'].append('trace validation %s: %s' % (stage.trace, errors[0]))
+        log('[%s] TOOL-ERROR (continuing): %s' % (tag, errors[0]))
     nt = set()
     if stage.nontrivial:
         for s in scripts:
@@ -317,11 +335,12 @@ def write_evidence(pid, tier, seed, level, result, wall, violations, known_hits,
         'known_finding_hits': known_hits,
         'checker_cmd': 'tlc (TLC2, tla2tools 1.8.0) on spec/MC_*.tla and spec/Trace_*.tla; harness/target/debug/conform replay',
     }
+    cov['events_skipped_inexact'] = sum(1 for n in result['notes'] if n.get('inexact'))
     if extra:
         cov.update(extra)
     ev = {'property_id': pid, 'tier': tier, 'seed': seed, 'level': level, 'coverage': cov,
           'assumptions': assumptions, 'wall_s': round(wall, 1), 'violations': violations}
-    with open(os.path.join(EVID, pid + '.json'), 'w') as f:
+    with open(os.path.join(EVID, pid + os.environ.get('VERIF_EVIDENCE_SUFFIX', '') + '.json'), 'w') as f:
         json.dump(ev, f, indent=1)
 
 
@@ -373,7 +392,8 @@ def main(argv):
     try:
         build_harness()
         result = {'states': 0, 'transitions': 0, 'scripts': 0, 'events': 0, 'nontrivial': set(), 'verdicts': [], 'drift': 0,
-                  'drift_samples': [], 'samples': [], 'stages': [], 'script_of': {}, 'notes': []}
+                  'drift_samples': [], 'samples': [], 'stages': [], 'script_of': {}, 'notes': [],
+                  'tool_errors': []}
         if replay_file:
             rp = json.load(open(replay_file))
             stages = [s for s in chk['stages'](tier) if s.name == rp['stage']] or chk['stages'](tier)[:1]
@@ -415,9 +435,15 @@ def main(argv):
             write_evidence(pid, tier, seed, chk.get('level', 'model_checking'), result, time.time() - t0, nviol,
                            {k: v['count'] for k, v in known_hits.items()}, chk.get('assumptions', []), chk.get('rule', ''),
                            extra={'other_property_verdicts': len(other)})
-        shutil.rmtree(workdir, ignore_errors=True)
         sys.stdout.flush()
-        return 1 if nviol else 0
+        if nviol:
+            shutil.rmtree(workdir, ignore_errors=True)
+            return 1
+        if result['tool_errors']:
+            log('TOOL-ERROR: %s (work directory kept: %s)' % (result['tool_errors'][0], workdir))
+            return 2
+        shutil.rmtree(workdir, ignore_errors=True)
+        return 0
     except ToolError as e:
         log('TOOL-ERROR: %s' % e)
         return 2
